@@ -438,6 +438,10 @@ func (e *Exec) builtin(x *ssa.Call, b *ssa.Builtin) {
 			sel := func(v, ix Term) Term { return fmt.Sprintf("(select (arr_%s %s) (+ (off_%s %s) %s))", s, v, s, v, ix) }
 			e.g.assert(fmt.Sprintf("(forall (%s) (! (=> (and %s (<= 0 %s) (< %s (len_%s %s))) (= %s %s)) :pattern (%s)))", strings.Join(ps, " "), e.reach[e.curBlock], i, i, s, base, sel(r, i), sel(base, i), sel(r, i)))
 			e.g.assert(fmt.Sprintf("(forall (%s) (! (=> (and %s (<= 0 %s) (< %s (len_%s %s))) (= %s %s)) :pattern (%s)))", strings.Join(ps, " "), e.reach[e.curBlock], i, i, s, add, sel(r, "(+ (len_"+s+" "+base+") "+i+")"), sel(add, i), sel(add, i)))
+			if e.parent == nil && len(e.bound) == 0 {
+				// index shifts of the concatenation: candidate witnesses for existentials over positions
+				e.root().concatLens = append(e.root().concatLens, fmt.Sprintf("(len_%s %s)", s, base))
+			}
 			e.setVal(x, val{t: r})
 			return
 		}
